@@ -101,6 +101,15 @@ class Sym:
         if Sym.int_hook is not None:
             return Sym.int_hook(self)
         raise Untraceable("int() of a symbolic number")
+
+    def __floor__(self):
+        # math.floor: same hook (a tracer that sets `int_hook` accepts either rounding-down function and
+        # must justify that they agree on its domain); without a hook untraceable as before
+        if Sym.int_hook is not None:
+            return Sym.int_hook(self)
+        raise Untraceable("math.floor of a symbolic number")
+
+    __trunc__ = __int__
     def __index__(self): raise Untraceable("index of a symbolic number")
     def __repr__(self): return f"Sym<{self.e}>"
 
